@@ -11,7 +11,9 @@
     select coroutine is not recorded), at most once per value;
   * `first.park u` → 0 Ok / 1 Timeout / 2 Canceled: the result the model's `park_timeout` computes for the wake reason
     (unparked / timer) from a clean `para` – a stale `Canceled` (defect F8) or `Timeout` diverges here;
-  * `co.start` / `co.end how` drive spawn and the end (return, panic, cancel while parked).
+  * `co.start` / `co.end how` drive spawn and the end (return, panic, cancel while parked);
+  * `unwind.yield` / `unwind.sleep` / `unwind.park` → code: blocking calls made by a `Drop` impl while the cancelled
+    coroutine unwinds (the model's `u = true` steps; the park's result is checked).
   Not tied: which generator a spawn gets (the replay always takes a new one: the pool's choice is not observable at
   this level; that reuse happens is recorded by `stack.reuse` and used by the harness oracle), migrations.
 -/
@@ -160,7 +162,8 @@ def cands (rs0 : RSt) (_t : Nat) (ev : Event) : List (Label × RSt × String) :=
         let s1 : Option St := match s.pcs c with
           | .ended => some s
           | .run => steps s [(c, .finish), (c, .drop false)]         -- an unnamed select coroutine: its end is not recorded
-          | .parked _ => steps s [(c, .cancel), (c, .wake .cancel), (c, .go), (c, .go), (c, .drop false)]
+          | .parked false _ => steps s [(c, .cancel), (c, .wake .cancel), (c, .go), (c, .go), (c, .drop false)]
+          | .unwinding => steps s [(c, .go), (c, .drop false)]
           | _ => none
         s1.toList.map fun s' => ({ kind := "call", op := "cls.drop", a1 := .id "val" v }, { rs with s := s', dropped := v :: rs.dropped }, "C.drop")
       | none => []
@@ -170,6 +173,22 @@ def cands (rs0 : RSt) (_t : Nat) (ev : Event) : List (Label × RSt × String) :=
         | some 1 => [(c, .panic), (c, .go), (c, .drop false)]
         | _ => [(c, .call (.park false)), (c, .go)]      -- parks; the cancel arrives later (seen at the drop)
       (steps s sched).toList.flatMap fun s' => obs { rs with s := s' } ("C.end" ++ toString ((numOf ev.a1).getD 9))
+    | "call", "unwind.yield" | "call", "unwind.sleep" | "call", "unwind.park" =>
+      -- a `Drop` impl runs during the Cancel unwind of a coroutine that was parked: the cancel has woken it
+      let api : Api := if ev.op == "unwind.yield" then .yieldNow else if ev.op == "unwind.sleep" then .sleep else .park false
+      let pre : List (Nat × Env) := match s.pcs c with
+        | .parked false _ => [(c, .cancel), (c, .wake .cancel), (c, .go)]
+        | _ => []
+      (steps s (pre ++ [(c, .call api), (c, .go)])).toList.flatMap fun s' =>
+        match s'.pcs c with
+        | .shortcut true _ => obs { rs with s := s' } ("C." ++ ev.op)
+        | _ => []
+    | "ret", "unwind.yield" | "ret", "unwind.sleep" =>
+      (steps s [(c, .go), (c, .go)]).toList.flatMap fun s' =>
+        if s'.pcs c == .unwinding then obs { rs with s := s' } ("C." ++ ev.op ++ "/ret") else []
+    | "ret", "unwind.park" =>
+      (steps s [(c, .go), (c, .go)]).toList.flatMap fun s' =>
+        if s'.pcs c == .unwinding then [({ kind := "ret", op := "unwind.park", a1 := .num (parkCode (s'.sh.lastPark c)) }, { rs with s := s' }, "C.unwind.park/ret")] else []
     | "call", "first.park" =>
       (steps s [(c, .call (.park false)), (c, .go)]).toList.flatMap fun s' =>
         obs { rs with s := s', park := (c, numOf ev.a1 == some 1) :: rs.park.filter (·.1 != c) } "C.park"
